@@ -19,7 +19,7 @@ def run(ctx):
     for k0 in range(5):      # filtering: arbitrary kinds / whitespace-ness / zero lengths, one newline
         for K in ((0, 1) if ctx.quick() else (0, 1, 2)):
             jobs.append(Job("c16.py", "h_lex", {"K": K, "k0": k0}, T * 2, 30, tag=f"filtering K={K},first-kind={k0}", meta={"twin": k0 == 0 and K == 1, "sigtag": "lex"}))
-    for a0 in range(6):      # purity: the same text lexed twice / with another text in between / three times gives the same positions (texts of 3 + 1 free characters over a pool incl. LF, CR, FF)
+    for a0 in range(7):      # purity: the same text lexed twice / with another text in between / three times gives the same positions (texts of 3 + 1 free characters over a pool incl. LF, CR, FF)
         jobs.append(Job("c16.py", "h_lex_twice", {"fix_a0": a0}, T, 30, tag=f"lexing is a function of the text, first char #{a0}", meta={"twin": a0 == 0, "sigtag": "lex-purity"}))
     jobs.append(Job("c16.py", "h_newlines", {}, T, 30, tag="|code|<=4"))
     jobs.append(Job("c16.py", "h_filter", {}, T, 30, tag="any kind/value"))
